@@ -127,7 +127,6 @@ RING_TRUSTED = COMMON_TRUSTED + [
     "regenerated facts: defaultBufferSize/defaultReadBlockSize/defaultWriteBlockSize and the lock structure of service/buffer.go "
     "(tied to the model's lock structure by `decide`)",
     "yield hooks in service/buffer.go (build tag verif) and the harness classification of the marks read from the same source",
-    XLATE_TRUSTED,
 ]
 
 _runs = [Run('ring', quick=1500, thorough=12000, seeds_thorough=8),
@@ -135,6 +134,6 @@ _runs = [Run('ring', quick=1500, thorough=12000, seeds_thorough=8),
          Run('ring-soak', quick=3000, thorough=40000, seeds_thorough=4)]
 
 register(Prop('C14', 'Mqtt.Properties.C14', ['ring'], runs=_runs, oracle=c14_oracle, nontrivial=ring_nontrivial,
-              spec_total=False, assumptions=RING_ASSUMPTIONS, trusted=RING_TRUSTED))
+              spec_total=False, assumptions=RING_ASSUMPTIONS, trusted=RING_TRUSTED + [XLATE_TRUSTED]))
 register(Prop('C15', 'Mqtt.Properties.C15', ['ring'], runs=_runs, oracle=c15_oracle, nontrivial=ring_nontrivial,
               spec_total=False, assumptions=RING_ASSUMPTIONS, trusted=RING_TRUSTED))
